@@ -15,6 +15,7 @@ import (
 	"raven/internal/delivery/parser"
 	"raven/internal/models"
 	"raven/internal/server/response"
+	"raven/internal/server/utils"
 )
 
 // ===== FETCH =====
@@ -101,82 +102,49 @@ func HandleFetch(deps ServerDeps, conn net.Conn, tag string, parts []string, sta
 		return
 	}
 
-	var rows *sql.Rows
-
-	// Support for sequence ranges (e.g., 1:2, 2:4, 1:*, *)
-	seqRange := strings.Split(sequence, ":")
-	var start, end int
-	var useRange bool
-
-	if len(seqRange) == 2 {
-		useRange = true
-		if seqRange[0] == "*" {
-			start = -1 // will handle below
-		} else {
-			start, err = strconv.Atoi(seqRange[0])
-			if err != nil || start < 1 {
-				deps.SendResponse(conn, fmt.Sprintf("%s BAD Invalid sequence number", tag))
-				return
-			}
+	// Resolve the sequence set the way STORE and COPY do: numbers, ranges in
+	// either order, "*" for the last message, comma-separated lists
+	if !utils.ValidSequenceSet(sequence) {
+		deps.SendResponse(conn, fmt.Sprintf("%s BAD Invalid sequence set", tag))
+		return
+	}
+	wanted := make(map[int]bool)
+	last := 0
+	for _, seq := range utils.ParseSequenceSetWithDB(sequence, state.SelectedMailboxID, targetDB) {
+		wanted[seq] = true
+		if seq > last {
+			last = seq
 		}
-		if seqRange[1] == "*" {
-			// Get max count for end using new schema
-			end, _ = db.GetMessageCountPerUser(targetDB, state.SelectedMailboxID)
-		} else {
-			end, err = strconv.Atoi(seqRange[1])
-			if err != nil || end < 1 {
-				deps.SendResponse(conn, fmt.Sprintf("%s BAD Invalid sequence number", tag))
-				return
-			}
-		}
-		if start == -1 {
-			start = end
-		}
-		if end < start {
-			end = start
-		}
-		// Query message_mailbox for messages in selected mailbox using new schema
-		query := `SELECT mm.message_id, mm.uid, mm.flags
-		          FROM message_mailbox mm
-		          WHERE mm.mailbox_id = ?
-		          ORDER BY mm.uid ASC LIMIT ? OFFSET ?`
-		rows, err = targetDB.Query(query, state.SelectedMailboxID, end-start+1, start-1)
-	} else if sequence == "1:*" || sequence == "*" {
-		query := `SELECT mm.message_id, mm.uid, mm.flags
-		          FROM message_mailbox mm
-		          WHERE mm.mailbox_id = ?
-		          ORDER BY mm.uid ASC`
-		rows, err = targetDB.Query(query, state.SelectedMailboxID)
-	} else {
-		msgNum, parseErr := strconv.Atoi(sequence)
-		if parseErr != nil || msgNum < 1 {
-			deps.SendResponse(conn, fmt.Sprintf("%s BAD Invalid sequence number", tag))
-			return
-		}
-		// A single message number is answered under that number, like n:n
-		start, useRange = msgNum, true
-		query := `SELECT mm.message_id, mm.uid, mm.flags
-		          FROM message_mailbox mm
-		          WHERE mm.mailbox_id = ?
-		          ORDER BY mm.uid ASC LIMIT 1 OFFSET ?`
-		rows, err = targetDB.Query(query, state.SelectedMailboxID, msgNum-1)
+	}
+	if last == 0 {
+		// No message of the mailbox is addressed
+		deps.SendResponse(conn, fmt.Sprintf("%s OK FETCH completed", tag))
+		return
 	}
 
+	// Walk the mailbox in sequence order up to the highest number addressed, so
+	// that the responses come in ascending order, each message once
+	query := `SELECT mm.message_id, mm.uid, mm.flags
+	          FROM message_mailbox mm
+	          WHERE mm.mailbox_id = ?
+	          ORDER BY mm.uid ASC LIMIT ?`
+	rows, err := targetDB.Query(query, state.SelectedMailboxID, last)
 	if err != nil {
 		deps.SendResponse(conn, fmt.Sprintf("%s NO Database error", tag))
 		return
 	}
 	defer func() { _ = rows.Close() }()
 
-	seqNum := 1
-	if useRange {
-		seqNum = start
-	}
+	seqNum := 0
 	for rows.Next() {
 		var messageID int64
 		var uid int64
 		var flagsStr sql.NullString
+		seqNum++
 		if err := rows.Scan(&messageID, &uid, &flagsStr); err != nil {
+			continue
+		}
+		if !wanted[seqNum] {
 			continue
 		}
 
@@ -191,7 +159,6 @@ func HandleFetch(deps ServerDeps, conn net.Conn, tag string, parts []string, sta
 			deps.SendResponse(conn, fmt.Sprintf("%s NO [SERVERBUG] FETCH failed: message data could not be read", tag))
 			return
 		}
-		seqNum++
 	}
 
 	deps.SendResponse(conn, fmt.Sprintf("%s OK FETCH completed", tag))
